@@ -9,6 +9,7 @@ import SkNet.Lemmas.GetDendro
 import SkNet.Lemmas.Valid
 import SkNet.Lemmas.Paris
 import SkNet.Lemmas.Reorder
+import SkNet.Lemmas.GetDendroMono
 
 namespace SkNet.C07
 open SkNet SkNet.Dendro SkNet.Hier
@@ -230,5 +231,68 @@ example : ((reorderDendrogram ([⟨0, 1, 5, 2⟩, ⟨2, 3, 1, 3⟩] : Dendro Nat
   decide
 
 end reorder
+
+
+/-! ### the Louvain hierarchies: tree → `dendrogram_` -/
+
+theorem tleaves_length_ge : (∀ t, WF t → 1 ≤ (tleaves t).length) ∧
+    (∀ ts, WFL ts → ts.length ≤ (tleavesL ts).length) := by
+  refine ⟨fun t => ?_, fun ts => ?_⟩
+  · refine Tree.rec (motive_1 := fun t => WF t → 1 ≤ (tleaves t).length)
+      (motive_2 := fun ts => WFL ts → ts.length ≤ (tleavesL ts).length) ?_ ?_ ?_ ?_ t
+    · intro k _; simp [tleaves]
+    · intro ts ih hw; simp only [WF] at hw; simp only [tleaves]; have := ih hw.2; omega
+    · intro _; simp [tleavesL]
+    · intro t ts iht ihts hw
+      simp only [WFL] at hw
+      simp only [tleavesL, List.length_cons, List.length_append]
+      have := iht hw.1; have := ihts hw.2; omega
+  · refine Tree.rec_1 (motive_1 := fun t => WF t → 1 ≤ (tleaves t).length)
+      (motive_2 := fun ts => WFL ts → ts.length ≤ (tleavesL ts).length) ?_ ?_ ?_ ?_ ts
+    · intro k _; simp [tleaves]
+    · intro ts ih hw; simp only [WF] at hw; simp only [tleaves]; have := ih hw.2; omega
+    · intro _; simp [tleavesL]
+    · intro t ts iht ihts hw
+      simp only [WFL] at hw
+      simp only [tleavesL, List.length_cons, List.length_append]
+      have := iht hw.1; have := ihts hw.2; omega
+
+/-- **LouvainIteration / LouvainHierarchy, from the tree on** (`treePipeline` = `get_dendrogram`, the shift of the
+    heights, `reorder_dendrogram`): for every tree over the nodes `0 … n-1` whose inner lists have at least two
+    elements — whatever partitions Louvain returned — `dendrogram_` is a valid dendrogram over the `n` nodes with
+    non-decreasing heights. -/
+theorem louvain_pipeline_valid (ts : List Tree) (n : Nat) (hwf : WF (.node ts))
+    (hperm : (tleaves (.node ts)).Perm (List.range n)) :
+    ∃ D, treePipeline (.node ts) = .ok D ∧ ValidDendro n D = true ∧ heightsSorted D = true := by
+  obtain ⟨rows, hrows, hv⟩ := getDendrogram_valid ts n hwf hperm
+  have hlen : (tleaves (.node ts)).length = n := by simpa using hperm.length_eq
+  have h2 : 2 ≤ n := by
+    simp only [WF] at hwf
+    have := tleaves_length_ge.2 ts hwf.2
+    simp only [tleaves] at hlen
+    omega
+  have hidx : getIndex (.node ts) + 1 = n := by
+    rw [getIndex_eq]; exact listMax_perm_range (by omega) hperm
+  have hl : ∀ x ∈ tleaves (.node ts), x < n := fun x hx => by simpa using hperm.mem_iff.mp hx
+  have hm := getDendrogram_mono hidx hl hrows
+  have hne : rows ≠ [] := by
+    intro e; subst e
+    have := valid_length hv; simp at this; omega
+  obtain ⟨rows', hsh⟩ : ∃ rows', shiftHeights rows = .ok rows' := by
+    unfold shiftHeights
+    cases rows with
+    | nil => exact absurd rfl hne
+    | cons r rs => exact ⟨_, rfl⟩
+  obtain ⟨hv', hm'⟩ := shiftHeights_spec hsh hv hm
+  obtain ⟨D, hD, hvD, hsD, _, _⟩ := reorder_valid hv' hm'
+  refine ⟨D, ?_, hvD, hsD⟩
+  unfold treePipeline
+  simp only [hrows, hsh, bind, Except.bind]
+  exact hD
+
+/-- non-vacuity: the tree of LouvainHierarchy on the house graph -/
+example : (treePipeline (.node [.node [.leaf 0, .node [.leaf 1, .leaf 4]], .node [.leaf 2, .leaf 3]])).toOption.map
+      (fun D => (D.map fun r => (r.i, r.j, r.h, r.s), ValidDendro 5 D && heightsSorted D))
+    = some ([(4, 1, 1, 2), (3, 2, 2, 2), (5, 0, 2, 3), (6, 7, 3, 5)], true) := by decide
 
 end SkNet.C07
